@@ -175,14 +175,95 @@ def align(fn: ast.AST, base: Dict[str, List[str]]) -> Dict[str, str]:
     return mapping
 
 
+def _plain_else(n: ast.If) -> bool:
+    return bool(n.orelse) and not (len(n.orelse) == 1 and isinstance(
+        n.orelse[0], ast.If))
+
+
+def _neg(t: ast.expr) -> ast.expr:
+    if isinstance(t, ast.UnaryOp) and isinstance(t.op, ast.Not):
+        return t.operand
+    return ast.UnaryOp(op=ast.Not(), operand=t)
+
+
+def _sig(stmts) -> str:
+    """shape of a block that does not change when nested if/else statements
+    are flipped: simple statements by text, compound ones by kind"""
+    import hashlib
+    parts = []
+    for st in (stmts if isinstance(stmts, list) else [stmts]):
+        if isinstance(st, (ast.Assign, ast.AugAssign, ast.AnnAssign,
+                           ast.Expr, ast.Return, ast.Raise, ast.Pass,
+                           ast.Break, ast.Continue, ast.Assert, ast.Delete)):
+            try:
+                parts.append(ast.unparse(st))
+            except Exception:
+                parts.append(type(st).__name__)
+        elif isinstance(st, ast.expr):
+            parts.append('E' if isinstance(st, ast.IfExp)
+                         else ast.unparse(st))
+        else:
+            parts.append(type(st).__name__)
+    return hashlib.sha1('\n'.join(parts).encode()).hexdigest()[:8]
+
+
+def _if_nodes(fn: ast.AST):
+    return sorted((n for n in ast.walk(fn) if (
+        isinstance(n, ast.If) and n.orelse) or isinstance(
+        n, ast.IfExp)), key=lambda n: (n.lineno, n.col_offset))
+
+
+def if_tests(fn: ast.AST) -> List[List[str]]:
+    """[test text, shape of the true arm, shape of the false arm] of every
+    if/else statement (plain else) and conditional expression, in source
+    order.  Locals keep their names: polarity is undone after the alpha
+    renaming, when the names agree with the baseline again."""
+    out = []
+    for n in _if_nodes(fn):
+        if isinstance(n, ast.If) and not _plain_else(n):
+            continue
+        out.append([_abs(n.test, set()), _sig(n.body), _sig(n.orelse)])
+    return out
+
+
+def undo_polarity(fn: ast.AST, base_tests) -> int:
+    """An if/else (or conditional expression) that is the mirror image of a
+    baseline one (negated test, arms exchanged), with no baseline entry of
+    its own shape left, is flipped back."""
+    from collections import Counter
+    want = Counter(tuple(x) for x in base_tests)
+    nodes = _if_nodes(fn)
+    todo = []
+    for n in nodes:
+        plain = isinstance(n, ast.IfExp) or _plain_else(n)
+        key = (_abs(n.test, set()), _sig(n.body), _sig(n.orelse))
+        if plain and want[key] > 0:
+            want[key] -= 1
+        else:
+            # (an `else:` holding a single `if` looks like an elif chain;
+            # it is a flip candidate as well)
+            todo.append(n)
+    k = 0
+    for n in todo:
+        neg = _neg(n.test)
+        key = (_abs(neg, set()), _sig(n.orelse), _sig(n.body))
+        if want[key] > 0:
+            want[key] -= 1
+            n.test = neg
+            n.body, n.orelse = n.orelse, n.body
+            k += 1
+    return k
+
+
 def canonicalise_function(key: str, fn: ast.AST) -> int:
     b = baseline().get(key)
     if not b:
         return 0
-    mp = align(fn, b)
+    mp = align(fn, b.get('l', {}))
     if mp:
         _Rename(mp).visit(fn)
-    return len(mp)
+    k = undo_polarity(fn, b.get('i', [])) if 'i' in b else 0
+    return len(mp) + k
 
 
 def stable_keys(funcs) -> Dict[str, str]:
